@@ -352,7 +352,7 @@ func genConfig(r *vlib.R) string {
 	// (not together with the per-entry limiter: the background refresh replaces
 	// entries at a random moment and the drop pattern of 1-3 token buckets
 	// is then not reproducible)
-	if erl == 0 && r.Chance(1, 6) {
+	if r.Chance(1, 6) {
 		prefetch = vlib.Pick(r, []int{50, 90})
 	}
 	return fmt.Sprintf("e2e new h=%s secret=%s nsid=%s crl=%d erl=%d prefetch=%d hosts=%s empty=%s rfc8198=%d rfc9520=%d",
@@ -649,8 +649,7 @@ func gen(r *vlib.R, n int, tier string, emit func(string)) {
 			// (histories below are not steered to fresh entry-limiter buckets: erl = 0 only)
 			if strings.Contains(cfgLine, "ratelimit") && erlOf(cfgLine) == 0 && r.Chance(1, 3) {
 				emit(genSeq(r, &k))
-			} else if erlOf(cfgLine) == 0 && strings.Contains(cfgLine, "prefetch=0") && r.Chance(1, 10) {
-				// (a background refresh would re-admit the alias with the merged verdict at a random moment)
+			} else if erlOf(cfgLine) == 0 && r.Chance(1, 10) {
 				emit(genMix(r, &k))
 			} else if r.Chance(1, 4) && erlOf(cfgLine) == 0 {
 				// (raw shapes cannot be steered away from used entry-limiter buckets)
